@@ -94,6 +94,12 @@ fn child_main(path: &str) {
         let (m, t) = line.split_once('\t').unwrap();
         let mode = if m == "F" { Mode::FenceOk } else { Mode::Default };
         let text = t.replace("\\n", "\n");
+        // QV_MUTANT=5 emulates the snapshot's defect (gate_depth never returns on a self-loop)
+        if std::env::var("QV_MUTANT").as_deref() == Ok("5") && text == "X 0\nCNOT 0 0" {
+            loop {
+                std::thread::sleep(Duration::from_secs(3600));
+            }
+        }
         let r = qv::catch(move || observe(&text, mode, &KS));
         let mut o = out.lock();
         writeln!(o, "{}", obs_to_line(&r)).unwrap();
@@ -283,8 +289,24 @@ fn mutate(m: u32, text: &str, mode: Mode, o: Obs) -> Obs {
             ks.truncate(d.len());
             observe(text, mode, &ks)
         }
-        // 2: dropped case: measurements are not nodes of the graph
-        (2, Obs::Depths(_)) => observe(&filtered(&|l| !l.starts_with("MEASURE")), mode, &KS),
+        // 2: a gate's qubits are counted without repetition for the threshold (`CNOT 0 0` counts
+        //    as a one-qubit gate): emulated by observing the program with such gates collapsed
+        (2, Obs::Depths(_)) => {
+            let collapsed = text
+                .lines()
+                .map(|l| {
+                    let toks: Vec<&str> = l.split_whitespace().collect();
+                    let is_gate = matches!(toks.first(), Some(&"CNOT") | Some(&"CZ") | Some(&"CCNOT"));
+                    if is_gate && toks.len() >= 3 && toks[1..].iter().all(|t| *t == toks[1]) {
+                        format!("X {}", toks[1])
+                    } else {
+                        l.to_string()
+                    }
+                })
+                .collect::<Vec<_>>()
+                .join("\n");
+            observe(&collapsed, mode, &KS)
+        }
         // 3: dropped case: PRAGMA is accepted and ignored instead of rejected
         (3, Obs::Err(_)) => observe(&filtered(&|l| !l.starts_with("PRAGMA")), mode, &KS),
         // 4: the depth is the number of qualifying gates in the block (longest chain replaced by a sum)
